@@ -76,6 +76,13 @@ def build_context(spec):
     schemes.insert(min(spec["pos"], len(schemes)), dis)
     if spec.get("marker"):
         opts["unix_disabled__marker"] = spec["marker"]
+    # a catch-all scheme listed AFTER the disabled one (the documented order) and chosen as default, globally or for one user
+    # category; a scheme that takes user= listed last -- neither may change what happens to a disabled string
+    if spec.get("plaintext_default") and not spec.get("counting"):
+        schemes.append("plaintext")
+        opts["default" if spec["plaintext_default"] == "global" else "admin__context__default"] = "plaintext"
+    if spec.get("user_scheme"):
+        schemes.append("postgres_md5")
     counter = None
     if spec.get("counting"):
         counter = counting_hasher()
@@ -147,11 +154,22 @@ def o_disable(rec: Recorder, case, soft=False):
     if ctx.identify(d) != dis:
         rec.fail(f"C18/disabled-not-identified/{dis}", "the disabled string is not attributed to the disabled scheme", "disable_enable", case, ctx.identify(d), dis, soft=soft)
         return
+    extra = []
+    if spec.get("plaintext_default") == "category":
+        extra.append({"category": "admin"})
+    if spec.get("user_scheme"):
+        extra += [{"user": "bob"}] + [dict(k, user="bob") for k in extra]
     for x in ("", pw, orig or "x", d, d[1:] or "y"):
         st, r = call(ctx.verify, x, d)
         if st == "err" or r is not False:
             rec.fail(f"C18/disabled-verifies/{dis}", "a password verifies against a disabled account string (or verify raises)", "disable_enable", dict(case, tried=x), repr(r), False, soft=soft)
             return
+        for kw in extra:
+            for fn, want in ((ctx.verify, False), (ctx.verify_and_update, (False, None))):
+                st, r = call(fn, x, d, **kw)
+                if st == "err" or r != want or (want is False and r is not False):
+                    rec.fail(f"C18/disabled-verifies/{dis}/{'+'.join(sorted(kw))}", f"{fn.__name__}(…, {', '.join(sorted(kw))}=…) against a disabled account string is not {want} (or raises)", "disable_enable", dict(case, tried=x, kw=kw), repr(r), want, soft=soft)
+                    return
         st, r = call(ctx.verify_and_update, x, d)
         if st == "err" or r != (False, None):
             rec.fail(f"C18/disabled-verify-and-update/{dis}", "verify_and_update against a disabled string is not (False, None)", "disable_enable", dict(case, tried=x), repr(r), (False, None), soft=soft)
@@ -204,7 +222,8 @@ def o_disable(rec: Recorder, case, soft=False):
 @oracle(PROPERTY, "missing_hash")
 def o_missing(rec: Recorder, case, soft=False):
     """verify against None: False, (False, None), and exactly one dummy verification"""
-    spec = dict(case["spec"], counting=True)
+    # (no user= scheme here: after a reconfiguration it could become the default, and a caller of such a context always passes user=)
+    spec = dict(case["spec"], counting=True, user_scheme=False)
     ctx, counter, names = build_context(spec)
     # the dummy hash itself is created lazily on first use (one extra digest, once): warm up, then count
     counter.calls = 0
@@ -351,6 +370,11 @@ def _specs():
                 spec["marker"] = m
         if not admissible(spec):
             spec["pos"] = len(schemes)  # disabled scheme last: always admissible
+        pd = draw(st.sampled_from([None, None, "global", "category"]))
+        if pd:
+            spec["plaintext_default"] = pd
+        if draw(st.integers(0, 3)) == 0:
+            spec["user_scheme"] = True
         return spec
 
     return s()
